@@ -350,3 +350,47 @@ _base_scn_mn = scenarios
 
 def scenarios():
     return _base_scn_mn() + [message_new(k) for k in ('bytes', 'str', 'sensitive', 'cleartext')]
+
+
+def cleartext_str(nsigs):
+    """PGPMessage.__str__ for a cleartext message (RFC 4880 section 7): header line, one Hash header naming the digests of the signatures
+    (none without signatures), an empty line, the dash-escaped text, then the armored signature block. The dash-escaping itself is a regular
+    expression (bounded component of C11); here: where its result goes."""
+    label = 'C11/PGPMessage.__str__[cleartext, %d signature%s]' % (nsigs, '' if nsigs == 1 else 's')
+    MSGC = 'pgpy.pgp.PGPMessage'
+
+    def gen(repo):
+        r = scn.Run(repo, MSGC, '__str__', label)
+        ex, st = r.ex, r.st
+        me = E.VObj(MSGC, 'msg')
+        r.hook(MSGC, 'type', scn.const(E.VStr(s='cleartext')))
+        TEXT, ARMOR, HNAME = z3.Const('TEXT', B), z3.Const('ARMORED_SIGNATURES', B), z3.Const('HASH_NAME', B)
+        r.set('msg', '_message', E.VBytes(z3.Const('TEXT_OCTETS', B)))
+        r.hook(MSGC, 'bytes_to_text', scn.method_hook(lambda ex, st, o, a: [(st, E.VStr(z=TEXT))]))
+        r.hook('pgpy.types.Armorable', '__str__', scn.method_hook(lambda ex, st, o, a: [(st, E.VStr(z=ARMOR))]))
+        sigs = [E.VObj('pgpy.pgp.PGPSignature', 's%d' % i) for i in range(nsigs)]
+        r.hook(MSGC, 'signatures', scn.const(ex.new_list(st, sigs)))
+        r.hook('pgpy.pgp.PGPSignature', 'hash_algorithm', scn.const(E.VObj('abstract:HashAlg', 'h')))
+        r.hook('abstract:HashAlg', 'name', scn.const(E.VStr(z=HNAME)))
+        ESC = z3.Function('RE_SUBN_STR[^- -> - - | re.MULTILINE]', B, B)
+        lit = lambda t: ex.strseq(E.VStr(s=t))
+        for pi, (s, v) in enumerate(r.call(me, [])):
+            if isinstance(v, E.Raise):
+                r.oblige(s, 'safety(%s)/p%d' % (v.exc.split(':')[0], pi), z3.BoolVal(False), v.where)
+                continue
+            ok = isinstance(v, E.VStr) and v.z is not None
+            r.oblige(s, 'is-text/p%d' % pi, z3.BoolVal(ok))
+            if not ok:
+                continue
+            hhdr = z3.Concat(lit('Hash: '), HNAME, lit('\n')) if nsigs else z3.Empty(B)
+            want = z3.Concat(lit('-----BEGIN PGP SIGNED MESSAGE-----\n'), hhdr, lit('\n'), ESC(TEXT), lit('\n'), ARMOR)
+            r.oblige(s, 'rfc4880-7:header-line,hash-header,empty-line,dash-escaped-text,signature-block/p%d' % pi, v.z == want)
+        return r.result()
+    return Scenario(label, MSGC + '.__str__', gen, props=('C11',))
+
+
+_base_scn_ct = scenarios
+
+
+def scenarios():
+    return _base_scn_ct() + [cleartext_str(0), cleartext_str(1)]
